@@ -121,8 +121,10 @@ def hExec : Handler := fun j => do
   let recs := storedPrefix.map ImplTrial.toRec
   let recsOk := recs.all Option.isSome
   let res : Result := ⟨recs.filterMap id, err⟩
-  -- Experiment.Trials has one slot per configured run (when options were present)
-  let lenOk := !s.hasOptions || implTrials.length == s.runs
+  -- Experiment.Trials has one slot per configured run (when options were present); a caller who pre-allocated the slice may
+  -- have given it MORE slots - the spare ones must stay unstored (prefixOk) and no more than `runs` trials may run (check)
+  let prefill := (fldBool inp "prefill").toOption.getD false
+  let lenOk := !s.hasOptions || implTrials.length == s.runs || (prefill && implTrials.length ≥ s.runs)
   let (mEvs, mRes) := execute s
   let corr := note == "" && prefixOk && recsOk && lenOk && evs == mEvs && res == mRes
   let chk := Protocol.check s evs res
